@@ -22,6 +22,31 @@ def queries(tier):
     for sz in (1, 2, 3):
         qs.append(Query("chunk-data-step-sz%d" % sz, "c16/chunk_step.c", tus=CTU, env=ENV, defs={"MODE": 2, "SZ": sz}, unwind=10,
                         timeout=300, params={"mode": "one DATA-state call", "chunk_size": sz}))
+    for n in ((0, 1, 2, 3, 4, 6) if tier == "quick" else (0, 1, 2, 3, 4, 5, 6, 7, 9)):
+        qs.append(Query("b64-roundtrip-n%d" % n, "c16/base64.c", env=ENV, defs={"N": n, "MODE": 1}, unwind=4 * n + 8, timeout=300,
+                        params={"codec": "base64", "bytes": n}))
+    for n in ((4, 6) if tier == "quick" else (4, 6, 8)):
+        qs.append(Query("b64-decode-n%d" % n, "c16/base64.c", env=ENV, defs={"N": n, "MODE": 2}, unwind=n + 4, timeout=300,
+                        params={"codec": "base64 decoder on arbitrary text", "bytes": n}))
+    WENV = ENV + ["env_aio.c"]
+    for ln, off in (((0, 0), (1, 1), (3, 0), (7, 3), (8, 0), (13, 1), (16, 0), (21, 1), (37, 3), (40, 0)) if tier == "quick" else
+                    [(l, o) for l in (0, 1, 2, 3, 4, 5, 7, 8, 9, 15, 16, 17, 23, 24, 31, 32, 33, 40) for o in (0, 1, 3)]):
+        qs.append(Query("wsmask-len%d-off%d" % (ln, off), "c16/wsmask.c", tus=["core/list.c"], env=WENV, defs={"LEN": ln, "OFF": off},
+                        unwind=ln + 8, timeout=300, params={"kernel": "ws_apply_mask", "len": ln, "alignment": off}))
+    OPS = [0, 1, 2, 8, 9, 10, 3, 11, 0x41]
+    for server in (0, 1):
+        for lclass in (0, 1, 2):
+            for masked in (0, 1):
+                qs.append(Query("wsframe1-%s-l%d-m%d" % ("srv" if server else "cli", lclass, masked), "c16/wsframe.c", tus=["core/list.c"],
+                                env=WENV, defs={"SERVER": server, "LCLASS": lclass, "MASKED": masked, "OP": 2, "STAGE1": 1}, unwind=30,
+                                timeout=300, params={"kernel": "ws_read_cb stage 1", "role": server, "length_form": lclass, "mask_bit": masked}))
+                for op in (OPS if (lclass == 0 and (masked == server)) or tier != "quick" else (2,)):
+                    qs.append(Query("wsframe2-%s-l%d-m%d-op%x" % ("srv" if server else "cli", lclass, masked, op), "c16/wsframe.c",
+                                    tus=["core/list.c"], env=WENV, defs={"SERVER": server, "LCLASS": lclass, "MASKED": masked, "OP": op},
+                                    unwind=30, timeout=300, mem_gb=8,
+                                    expect_fail=[r"memcpy (source|destination) region"],
+                                    params={"kernel": "ws_read_cb header complete", "role": "server" if server else "client",
+                                            "length_form": ["7-bit", "16-bit", "64-bit"][lclass], "mask_bit": masked, "opcode_field": op}))
     return qs
 
 MANIFEST = {
